@@ -62,7 +62,7 @@ CLAIMED = {
    "Trusted: go/ssa, VTA-based callee write summaries, the standard encoders themselves; field-by-field equality after re-parsing and the vector-database layouts are not decided.",
    "who-may-use/who-may-write effect rules + table agreement + polynomial window check + pure-filter shape proof", "DESIGN.md §4 C14"),
  "C16": ("other",
-   "Structural necessary conditions of order and structure preservation in the DOCX/ODT readers: no function reassembles ordered inline content kind by kind from two or more child-content fields of one unmarshalled element; every loop over a row's cells that keeps a column cursor advances it on every path to the next cell (path enumeration over the loop body on the typed AST) and the DOCX fillers step by the cell's own span; list, list-item and run/inline text builders reach the loop over each child collection on every path to their return (SSA dominance); every text-carrying child collection of the structs the body is decoded into is read somewhere (declared-but-never-read = dropped content); the hand-written ordered decoders dispatch on every text-carrying inline element of the content model and on no deleted-text element.",
+   "Structural necessary conditions of order and structure preservation in the DOCX/ODT readers: no function reassembles ordered inline content kind by kind from two or more child-content fields of one unmarshalled element; every loop over a row's cells that keeps a column cursor advances it on every path to the next cell (path enumeration over the loop body on the typed AST) and the DOCX fillers step by the cell's own span; list, list-item and run/inline text builders reach the loop over each child collection on every path to their return (SSA dominance); every text-carrying child collection of the structs the body is decoded into is read somewhere (declared-but-never-read = dropped content); the hand-written ordered decoders dispatch on every text-carrying inline element of the content model and on no deleted-text element; streaming token walks that record elements by name consume the subtree or test the nesting depth.",
    "Trusted: go/types, go/ssa dominance; the inline content-model table in rules/c16.go (ECMA-376 17.3, ODF 1.2 6.1). Not decided: interleaving of body-level paragraphs and tables, heading levels through style inheritance, row spans of vertical merges, header/footer leakage.",
    "typed-AST sibling-field reassembly lint + per-loop path enumeration + SSA dominance + declared-field-read check + dispatch-table agreement", "DESIGN.md §4 C16"),
  "C17": ("other",
